@@ -20,6 +20,13 @@ Obligations (each named, each either holds syntactically or is refuted):
 import ast
 
 
+BUILTIN_METHOD_NAMES = {
+    "get", "pop", "update", "items", "keys", "values", "append", "extend", "remove",
+    "index", "count", "copy", "format", "split", "rsplit", "strip", "lstrip", "rstrip",
+    "join", "replace", "startswith", "endswith", "setdefault", "lower", "upper",
+    "splitlines", "match", "search", "sub", "groupdict", "group", "is_integer", "read"}
+
+
 def unparse(n):
     return ast.unparse(n)
 
@@ -186,7 +193,10 @@ class Analysis:
                 if ci is not None and ci.find_method("__init__"):
                     out.add(ci.find_method("__init__").key)
                     return out
-            # unknown receiver: every package method of that name
+            # unknown receiver: every package method of that name (names of
+            # builtin container/str methods are taken to be those builtins)
+            if f.attr in BUILTIN_METHOD_NAMES:
+                return out
             for k2, fi2 in self.db.funcs.items():
                 if fi2.cls is not None and fi2.qualname.endswith("." + f.attr) \
                         and not k2.startswith("ghost:"):
